@@ -1,1 +1,320 @@
-From TV Require Import Base.
+(* Invariants of the interleaving model of the ZeroMQ push sender (Model/Zmq.v). *)
+From TV Require Import Base Model.Zmq.
+
+Lemma nth_error_set_thread l : forall i t j,
+  (i < length l)%nat ->
+  nth_error (set_thread l i t) j = if Nat.eqb j i then Some t else nth_error l j.
+Proof.
+  unfold set_thread. induction l as [|x r IH]; intros i t j Hi; simpl in Hi; [lia|].
+  destruct i as [|i'].
+  - simpl. destruct j as [|j']; reflexivity.
+  - simpl. destruct j as [|j']; [reflexivity|]. simpl. apply IH. lia.
+Qed.
+
+Lemma nth_error_lt {A} (l : list A) i x : nth_error l i = Some x -> (i < length l)%nat.
+Proof. intros H. apply nth_error_Some. congruence. Qed.
+
+Definition holder (t : thread) : bool :=
+  match t_pc t with Creating _ | HasLock _ => true | _ => false end.
+Definition creating (t : thread) : bool :=
+  match t_pc t with Creating _ => true | _ => false end.
+
+(* ---------- one socket *)
+Record Inv1 (z : zstate) : Prop := {
+  i_one_holder : forall i j ti tj, nth_error (z_threads z) i = Some ti -> nth_error (z_threads z) j = Some tj ->
+                                   holder ti = true -> holder tj = true -> i = j;
+  i_lock : z_lock z = false -> forall i ti, nth_error (z_threads z) i = Some ti -> holder ti = false;
+  i_creating : forall i ti, nth_error (z_threads z) i = Some ti -> creating ti = true -> z_socket z = false;
+  i_created : z_created z = if z_socket z then 1%nat else 0%nat
+}.
+
+Lemma Inv1_init : Inv1 z_init.
+Proof.
+  constructor; simpl.
+  - intros i j ti tj Hi Hj Hh. destruct i as [|i]; simpl in Hi; [inversion Hi; subst; discriminate | destruct i; discriminate].
+  - intros _ i ti Hi. destruct i as [|i]; simpl in Hi; [inversion Hi; subst; reflexivity | destruct i; discriminate].
+  - intros i ti Hi Hc. destruct i as [|i]; simpl in Hi; [inversion Hi; subst; discriminate | destruct i; discriminate].
+  - reflexivity.
+Qed.
+
+Lemma nth_error_app_new {A} (l : list A) x i y :
+  nth_error (l ++ [x]) i = Some y -> nth_error l i = Some y \/ (i = length l /\ y = x).
+Proof.
+  intros H. destruct (Nat.lt_ge_cases i (length l)) as [Hlt|Hge].
+  - rewrite nth_error_app1 in H by exact Hlt. left. exact H.
+  - rewrite nth_error_app2 in H by exact Hge. destruct (i - length l)%nat as [|k] eqn:E.
+    + simpl in H. inversion H. right. split; [lia | reflexivity].
+    + simpl in H. destruct k; discriminate.
+Qed.
+
+Lemma Inv1_append z t :
+  holder t = false -> Inv1 z ->
+  Inv1 {| z_threads := z_threads z ++ [t]; z_queue := z_queue z; z_lock := z_lock z; z_socket := z_socket z;
+          z_created := z_created z; z_writes := z_writes z |}.
+Proof.
+  intros Ht [H1 H2 H3 H4]. assert (Hc : creating t = false) by (unfold holder, creating in *; destruct (t_pc t); congruence).
+  constructor; simpl.
+  - intros i j ti tj Hi Hj Hhi Hhj.
+    apply nth_error_app_new in Hi. apply nth_error_app_new in Hj.
+    destruct Hi as [Hi|[_ ->]]; [|congruence]. destruct Hj as [Hj|[_ ->]]; [|congruence]. eapply H1; eassumption.
+  - intros Hl i ti Hi. apply nth_error_app_new in Hi. destruct Hi as [Hi|[_ ->]]; [eapply H2; eassumption | exact Ht].
+  - intros i ti Hi Hcr. apply nth_error_app_new in Hi. destruct Hi as [Hi|[_ ->]]; [eapply H3; eassumption | congruence].
+  - exact H4.
+Qed.
+
+Lemma Inv1_step z a z' : Inv1 z -> zstep z a = Some z' -> Inv1 z'.
+Proof.
+  intros HI Hs. destruct a as [i|m|ms|]; simpl in Hs.
+  - (* a thread moves *)
+    unfold step_thread in Hs. destruct (nth_error (z_threads z) i) as [t|] eqn:Et; [|discriminate].
+    assert (Hlt := nth_error_lt _ _ _ Et). destruct HI as [H1 H2 H3 H4].
+    assert (Hother : forall t' j tj, nth_error (set_thread (z_threads z) i t') j = Some tj -> j <> i -> nth_error (z_threads z) j = Some tj).
+    { intros t' j tj Hj Hne. rewrite nth_error_set_thread in Hj by exact Hlt. destruct (Nat.eqb_spec j i); [contradiction | exact Hj]. }
+    assert (Hself : forall t' tj, nth_error (set_thread (z_threads z) i t') i = Some tj -> tj = t').
+    { intros t' tj Hj. rewrite nth_error_set_thread, Nat.eqb_refl in Hj by exact Hlt. inversion Hj. reflexivity. }
+    (* generic reconstruction when the moving thread is not a holder afterwards and was not before,
+       or handled case by case below *)
+    destruct (t_pc t) as [|m|m|m|m|m] eqn:Epc.
+    + (* Idle: takes a message, becomes WantLock *)
+      assert (Hnh : holder t = false) by (unfold holder; rewrite Epc; reflexivity).
+      destruct (t_queue_reader t).
+      * destruct (z_queue z) as [|m q]; [discriminate|]. inversion Hs; subst z'; clear Hs. constructor; simpl.
+        -- intros a b ta tb Ha Hb Hha Hhb. destruct (Nat.eq_dec a i) as [->|Na]; [apply Hself in Ha; subst ta; discriminate|].
+           destruct (Nat.eq_dec b i) as [->|Nb]; [apply Hself in Hb; subst tb; discriminate|].
+           eapply H1; [eapply Hother; eassumption | eapply Hother; eassumption | |]; assumption.
+        -- intros Hl a ta Ha. destruct (Nat.eq_dec a i) as [->|Na]; [apply Hself in Ha; subst ta; reflexivity|].
+           eapply H2; [exact Hl | eapply Hother; eassumption].
+        -- intros a ta Ha Hc. destruct (Nat.eq_dec a i) as [->|Na]; [apply Hself in Ha; subst ta; discriminate|].
+           eapply H3; [eapply Hother; eassumption | exact Hc].
+        -- exact H4.
+      * destruct (t_todo t) as [|m r]; [discriminate|]. inversion Hs; subst z'; clear Hs. constructor; simpl.
+        -- intros a b ta tb Ha Hb Hha Hhb. destruct (Nat.eq_dec a i) as [->|Na]; [apply Hself in Ha; subst ta; discriminate|].
+           destruct (Nat.eq_dec b i) as [->|Nb]; [apply Hself in Hb; subst tb; discriminate|].
+           eapply H1; [eapply Hother; eassumption | eapply Hother; eassumption | |]; assumption.
+        -- intros Hl a ta Ha. destruct (Nat.eq_dec a i) as [->|Na]; [apply Hself in Ha; subst ta; reflexivity|].
+           eapply H2; [exact Hl | eapply Hother; eassumption].
+        -- intros a ta Ha Hc. destruct (Nat.eq_dec a i) as [->|Na]; [apply Hself in Ha; subst ta; discriminate|].
+           eapply H3; [eapply Hother; eassumption | exact Hc].
+        -- exact H4.
+    + (* WantLock: acquires the free lock *)
+      destruct (z_lock z) eqn:El; [discriminate|]. inversion Hs; subst z'; clear Hs. constructor; simpl.
+      * intros a b ta tb Ha Hb Hha Hhb.
+        destruct (Nat.eq_dec a i) as [->|Na]; destruct (Nat.eq_dec b i) as [->|Nb]; auto.
+        -- exfalso. assert (Hx := H2 eq_refl b tb (Hother _ _ _ Hb Nb)). congruence.
+        -- exfalso. assert (Hx := H2 eq_refl a ta (Hother _ _ _ Ha Na)). congruence.
+        -- exfalso. assert (Hx := H2 eq_refl a ta (Hother _ _ _ Ha Na)). congruence.
+      * discriminate.
+      * intros a ta Ha Hc. destruct (Nat.eq_dec a i) as [->|Na].
+        -- apply Hself in Ha. subst ta. unfold creating, with_pc in Hc. simpl in Hc. destruct (z_socket z); [discriminate | reflexivity].
+        -- exfalso. assert (Hx := H2 eq_refl a ta (Hother _ _ _ Ha Na)). unfold holder, creating in *. destruct (t_pc ta); discriminate.
+      * exact H4.
+    + (* Creating: the factory returns *)
+      assert (Hsock : z_socket z = false) by (eapply H3; [exact Et | unfold creating; rewrite Epc; reflexivity]).
+      assert (Hh : holder t = true) by (unfold holder; rewrite Epc; reflexivity).
+      inversion Hs; subst z'; clear Hs. constructor; simpl.
+      * intros a b ta tb Ha Hb Hha Hhb.
+        destruct (Nat.eq_dec a i) as [->|Na]; destruct (Nat.eq_dec b i) as [->|Nb]; auto.
+        -- symmetry. eapply H1; [eapply Hother; eassumption | exact Et | assumption | assumption].
+        -- eapply H1; [eapply Hother; eassumption | exact Et | assumption | assumption].
+        -- eapply H1; [eapply Hother; eassumption | eapply Hother; eassumption | |]; assumption.
+      * discriminate.
+      * intros a ta Ha Hc. destruct (Nat.eq_dec a i) as [->|Na]; [apply Hself in Ha; subst ta; discriminate|].
+        exfalso. assert (Hta := Hother _ _ _ Ha Na).
+        assert (a = i) by (eapply H1; [exact Hta | exact Et | unfold holder, creating in *; destruct (t_pc ta); congruence | exact Hh]). contradiction.
+      * rewrite H4, Hsock. reflexivity.
+    + (* HasLock: releases *)
+      assert (Hh : holder t = true) by (unfold holder; rewrite Epc; reflexivity).
+      inversion Hs; subst z'; clear Hs. constructor; simpl.
+      * intros a b ta tb Ha Hb Hha Hhb.
+        assert (Ht' : forall x tx, nth_error (set_thread (z_threads z) i (with_pc t (if t_nowrite t then Idle else Writing m))) x = Some tx ->
+                                   holder tx = true -> x <> i).
+        { intros x tx Hx Hhx ->. apply Hself in Hx. subst tx. unfold holder, with_pc in Hhx. simpl in Hhx. destruct (t_nowrite t); discriminate. }
+        eapply H1; [eapply Hother; [exact Ha | eapply Ht'; eassumption] | eapply Hother; [exact Hb | eapply Ht'; eassumption] | |]; assumption.
+      * intros _ a ta Ha. destruct (Nat.eq_dec a i) as [->|Na].
+        -- apply Hself in Ha. subst ta. unfold holder, with_pc. simpl. destruct (t_nowrite t); reflexivity.
+        -- assert (Hta := Hother _ _ _ Ha Na). destruct (holder ta) eqn:Eh; [|reflexivity].
+           exfalso. apply Na. eapply H1; [exact Hta | exact Et | exact Eh | exact Hh].
+      * intros a ta Ha Hc. destruct (Nat.eq_dec a i) as [->|Na].
+        -- apply Hself in Ha. subst ta. unfold creating, with_pc in Hc. simpl in Hc. destruct (t_nowrite t); discriminate.
+        -- eapply H3; [eapply Hother; eassumption | exact Hc].
+      * exact H4.
+    + (* Writing *)
+      inversion Hs; subst z'; clear Hs. constructor; simpl.
+      * intros a b ta tb Ha Hb Hha Hhb. destruct (Nat.eq_dec a i) as [->|Na]; [apply Hself in Ha; subst ta; discriminate|].
+        destruct (Nat.eq_dec b i) as [->|Nb]; [apply Hself in Hb; subst tb; discriminate|].
+        eapply H1; [eapply Hother; eassumption | eapply Hother; eassumption | |]; assumption.
+      * intros Hl a ta Ha. destruct (Nat.eq_dec a i) as [->|Na]; [apply Hself in Ha; subst ta; reflexivity|].
+        eapply H2; [exact Hl | eapply Hother; eassumption].
+      * intros a ta Ha Hc. destruct (Nat.eq_dec a i) as [->|Na]; [apply Hself in Ha; subst ta; discriminate|].
+        eapply H3; [eapply Hother; eassumption | exact Hc].
+      * exact H4.
+    + (* Draining *)
+      inversion Hs; subst z'; clear Hs. constructor; simpl.
+      * intros a b ta tb Ha Hb Hha Hhb. destruct (Nat.eq_dec a i) as [->|Na]; [apply Hself in Ha; subst ta; discriminate|].
+        destruct (Nat.eq_dec b i) as [->|Nb]; [apply Hself in Hb; subst tb; discriminate|].
+        eapply H1; [eapply Hother; eassumption | eapply Hother; eassumption | |]; assumption.
+      * intros Hl a ta Ha. destruct (Nat.eq_dec a i) as [->|Na]; [apply Hself in Ha; subst ta; reflexivity|].
+        eapply H2; [exact Hl | eapply Hother; eassumption].
+      * intros a ta Ha Hc. destruct (Nat.eq_dec a i) as [->|Na]; [apply Hself in Ha; subst ta; discriminate|].
+        eapply H3; [eapply Hother; eassumption | exact Hc].
+      * exact H4.
+  - inversion Hs; subst z'. destruct HI as [H1 H2 H3 H4]. constructor; simpl; assumption.
+  - inversion Hs; subst z'. apply Inv1_append; [reflexivity | exact HI].
+  - inversion Hs; subst z'. apply Inv1_append; [reflexivity | exact HI].
+Qed.
+
+Lemma replay_inv1 l : forall z z', Inv1 z -> replay z l = Some z' -> Inv1 z'.
+Proof.
+  induction l as [|a r IH]; intros z z' HI Hr; simpl in Hr.
+  - inversion Hr; subst. exact HI.
+  - destruct (zstep z a) as [z1|] eqn:E; [|discriminate]. eapply IH; [eapply Inv1_step; eassumption | exact Hr].
+Qed.
+
+Lemma one_socket l z' : replay z_init l = Some z' -> (z_created z' <= 1)%nat.
+Proof.
+  intros H. assert (HI := replay_inv1 l z_init z' Inv1_init H). destruct HI as [_ _ _ H4]. rewrite H4. destruct (z_socket z'); lia.
+Qed.
+
+(* ---------- queued messages are written in queue order, each once *)
+Section Fifo.
+Variable isq : msgid -> bool.   (* which message identities are queued on the adapter (the others are sent directly) *)
+
+Definition valid_action (a : zaction) : bool :=
+  match a with
+  | AStep _ => true
+  | AQueue m => isq m
+  | ASpawn ms => forallb (fun m => negb (isq m)) ms
+  | ASetup => negb (isq 0%Z)
+  end.
+
+Definition pc_msg (p : pc) : list msgid :=
+  match p with Idle => [] | WantLock m | Creating m | HasLock m | Writing m | Draining m => [m] end.
+Definition inflight (p : pc) : list msgid :=
+  match p with WantLock m | Creating m | HasLock m | Writing m => [m] | _ => [] end.
+
+Record Inv2 (z : zstate) (Q : list msgid) : Prop := {
+  f_reader0 : exists t0, nth_error (z_threads z) 0 = Some t0 /\ t_queue_reader t0 = true /\ t_nowrite t0 = false /\
+                         (forall m, In m (pc_msg (t_pc t0)) -> isq m = true) /\
+                         filter isq (z_writes z) ++ inflight (t_pc t0) ++ z_queue z = Q;
+  f_others : forall i t, nth_error (z_threads z) i = Some t -> i <> 0%nat ->
+                         t_queue_reader t = false /\ (forall m, In m (pc_msg (t_pc t) ++ t_todo t) -> isq m = false);
+  f_queue : forall m, In m (z_queue z) -> isq m = true
+}.
+
+Lemma Inv2_init : Inv2 z_init [].
+Proof.
+  constructor; simpl.
+  - eexists. split; [reflexivity|]. simpl. repeat split; auto. 
+  - intros i t Hi Hne. destruct i; [contradiction|]. destruct i; discriminate.
+  - intros m [].
+Qed.
+
+Lemma filter_app_single (l : list msgid) m : filter isq (l ++ [m]) = filter isq l ++ (if isq m then [m] else []).
+Proof. rewrite filter_app. simpl. destruct (isq m); reflexivity. Qed.
+
+Lemma Inv2_step z Q a z' :
+  Inv2 z Q -> valid_action a = true -> zstep z a = Some z' ->
+  Inv2 z' (match a with AQueue m => Q ++ [m] | _ => Q end).
+Proof.
+  intros [[t0 [Ht0 [Hr0 [Hnw0 [Hq0 HQ]]]]] Hoth Hqueue] Hv Hs.
+  destruct a as [i|m|ms|]; simpl in Hs.
+  - unfold step_thread in Hs. destruct (nth_error (z_threads z) i) as [t|] eqn:Et; [|discriminate].
+    assert (Hlt := nth_error_lt _ _ _ Et).
+    assert (Hnth : forall t' j, nth_error (set_thread (z_threads z) i t') j = if Nat.eqb j i then Some t' else nth_error (z_threads z) j)
+      by (intros; apply nth_error_set_thread; exact Hlt).
+    destruct (Nat.eq_dec i 0) as [->|Hi0].
+    + (* the queue reader moves *)
+      rewrite Ht0 in Et. inversion Et; subst t. clear Et.
+      assert (Hrest : forall t' j tj, nth_error (set_thread (z_threads z) 0 t') j = Some tj -> j <> 0%nat ->
+                                      nth_error (z_threads z) j = Some tj).
+      { intros t' j tj Hj Hne. rewrite Hnth in Hj. destruct (Nat.eqb_spec j 0); [contradiction | exact Hj]. }
+      assert (Hgen0 : forall p' (writes queue : list msgid) lock sock created,
+                 (forall m, In m (pc_msg p') -> isq m = true) ->
+                 (forall m, In m queue -> isq m = true) ->
+                 filter isq writes ++ inflight p' ++ queue = Q ->
+                 Inv2 {| z_threads := set_thread (z_threads z) 0 (with_pc t0 p'); z_queue := queue; z_lock := lock;
+                         z_socket := sock; z_created := created; z_writes := writes |} Q).
+      { intros p' writes queue lock sock created Hp' Hq' HQ'. constructor; simpl.
+        - exists (with_pc t0 p'). split; [first [reflexivity | rewrite Hnth; reflexivity]|]. simpl. auto.
+        - intros j tj Hj Hne. apply (Hoth j tj (Hrest _ _ _ Hj Hne) Hne).
+        - exact Hq'. }
+      destruct (t_pc t0) as [|m|m|m|m|m] eqn:Epc; try rewrite Hr0 in Hs.
+      * destruct (z_queue z) as [|m q] eqn:Eq; [discriminate|]. inversion Hs; subst z'; clear Hs.
+        apply Hgen0.
+        -- intros x [<-|[]]. apply Hqueue. left. reflexivity.
+        -- intros x Hx. apply Hqueue. right. exact Hx.
+        -- simpl in *. exact HQ.
+      * destruct (z_lock z); [discriminate|]. inversion Hs; subst z'; clear Hs.
+        apply Hgen0; [destruct (z_socket z); exact Hq0 | exact Hqueue | destruct (z_socket z); exact HQ].
+      * inversion Hs; subst z'; clear Hs. apply Hgen0; [exact Hq0 | exact Hqueue | exact HQ].
+      * inversion Hs; subst z'; clear Hs. rewrite Hnw0. apply Hgen0; [exact Hq0 | exact Hqueue | exact HQ].
+      * inversion Hs; subst z'; clear Hs. apply Hgen0; [exact Hq0 | exact Hqueue |].
+        rewrite filter_app_single, (Hq0 m (or_introl eq_refl)). simpl in *. rewrite <- app_assoc. exact HQ.
+      * inversion Hs; subst z'; clear Hs. apply Hgen0; [intros x [] | exact Hqueue | exact HQ].
+    + (* a direct sender (or the setup thread) moves *)
+      destruct (Hoth i t Et Hi0) as [Hnr Hmsgs]. rewrite Hnr in Hs.
+      assert (Hkeep0 : forall t', nth_error (set_thread (z_threads z) i t') 0 = Some t0).
+      { intros t'. rewrite Hnth. destruct (Nat.eqb_spec 0 i); [congruence | exact Ht0]. }
+      assert (Hgen : forall t' (writes : list msgid) lock sock created,
+                 t_queue_reader t' = false ->
+                 (forall m, In m (pc_msg (t_pc t') ++ t_todo t') -> isq m = false) ->
+                 filter isq writes = filter isq (z_writes z) ->
+                 Inv2 {| z_threads := set_thread (z_threads z) i t'; z_queue := z_queue z; z_lock := lock; z_socket := sock;
+                         z_created := created; z_writes := writes |} Q).
+      { intros t' writes lock sock created Hr' Hm' Hw. constructor; simpl.
+        - exists t0. split; [apply Hkeep0|]. repeat split; auto. rewrite Hw. exact HQ.
+        - intros j tj Hj Hne. rewrite Hnth in Hj. destruct (Nat.eqb_spec j i) as [->|Hji].
+          + inversion Hj; subst tj. auto.
+          + apply (Hoth j tj Hj Hne).
+        - exact Hqueue. }
+      destruct (t_pc t) as [|m|m|m|m|m] eqn:Epc.
+      * destruct (t_todo t) as [|m r] eqn:Etodo; [discriminate|]. inversion Hs; subst z'; clear Hs.
+        apply Hgen; simpl; auto. all: try (intros x [<-|Hx]; apply Hmsgs; simpl; auto).
+      * destruct (z_lock z); [discriminate|]. inversion Hs; subst z'; clear Hs.
+        apply Hgen; simpl; auto. all: try (destruct (z_socket z); simpl; intros x Hx; apply Hmsgs; exact Hx).
+      * inversion Hs; subst z'; clear Hs. apply Hgen; simpl; auto.
+      * inversion Hs; subst z'; clear Hs. apply Hgen; simpl; auto.
+        all: try (destruct (t_nowrite t); simpl; intros x Hx; apply Hmsgs; simpl; auto).
+      * inversion Hs; subst z'; clear Hs. apply Hgen; simpl; auto.
+        all: try (rewrite filter_app_single, (Hmsgs m (or_introl eq_refl)); apply app_nil_r).
+      * inversion Hs; subst z'; clear Hs. apply Hgen; simpl; auto.
+        all: try (intros x Hx; apply Hmsgs; simpl; right; exact Hx).
+  - inversion Hs; subst z'; clear Hs. simpl in Hv. constructor; simpl.
+    + exists t0. split; [exact Ht0|]. repeat split; auto. rewrite <- HQ, <- !app_assoc. reflexivity.
+    + exact Hoth.
+    + intros x Hx. apply in_app_iff in Hx. destruct Hx as [Hx|[<-|[]]]; [apply Hqueue; exact Hx | exact Hv].
+  - inversion Hs; subst z'; clear Hs. simpl in Hv. constructor; simpl.
+    + exists t0. split; [|repeat split; auto]. destruct (z_threads z); [discriminate | exact Ht0].
+    + intros j tj Hj Hne. apply nth_error_app_new in Hj. destruct Hj as [Hj|[_ ->]]; [apply (Hoth j tj Hj Hne)|].
+      simpl. split; [reflexivity|]. intros x Hx. rewrite forallb_forall in Hv. apply negb_true_iff. apply Hv. exact Hx.
+    + exact Hqueue.
+  - inversion Hs; subst z'; clear Hs. simpl in Hv. constructor; simpl.
+    + exists t0. split; [|repeat split; auto]. destruct (z_threads z); [discriminate | exact Ht0].
+    + intros j tj Hj Hne. apply nth_error_app_new in Hj. destruct Hj as [Hj|[_ ->]]; [apply (Hoth j tj Hj Hne)|].
+      simpl. split; [reflexivity|]. intros x [<-|[]]. apply negb_true_iff. exact Hv.
+    + exact Hqueue.
+Qed.
+
+Fixpoint queued_of (l : list zaction) : list msgid :=
+  match l with [] => [] | AQueue m :: r => m :: queued_of r | _ :: r => queued_of r end.
+
+Lemma replay_inv2 l : forall z Q z',
+  Inv2 z Q -> forallb valid_action l = true -> replay z l = Some z' -> Inv2 z' (Q ++ queued_of l).
+Proof.
+  induction l as [|a r IH]; intros z Q z' HI Hv Hr; simpl in *.
+  - inversion Hr; subst. rewrite app_nil_r. exact HI.
+  - apply andb_true_iff in Hv. destruct Hv as [Hva Hvr].
+    destruct (zstep z a) as [z1|] eqn:E; [|discriminate].
+    assert (H1 := Inv2_step z Q a z1 HI Hva E).
+    destruct a as [i|m|ms|]; simpl; try (apply (IH z1 Q z' H1 Hvr Hr)).
+    specialize (IH z1 (Q ++ [m]) z' H1 Hvr Hr). rewrite <- app_assoc in IH. exact IH.
+Qed.
+
+Lemma fifo_once l z' :
+  forallb valid_action l = true -> replay z_init l = Some z' ->
+  exists rest, filter isq (z_writes z') ++ rest = queued_of l.
+Proof.
+  intros Hv Hr. destruct (replay_inv2 l z_init [] z' Inv2_init Hv Hr) as [[t0 [_ [_ [_ [_ HQ]]]]] _ _].
+  simpl in HQ. eexists. exact HQ.
+Qed.
+End Fifo.
